@@ -336,7 +336,11 @@ func runC01(p *core.Prog, r *core.Report, tier string) {
 		var seen string
 		for _, ci := range core.CallsNamed(filterLevel.fn, "ValidatingAccountsForEpochByIndex") {
 			a := ci.Common().Args
-			xd := ds.D(a[len(a)-1])
+			idxArg := a[len(a)-1]
+			if st := singleStoreOf(idxArg); st != nil {
+				idxArg = st // a local captured by a closure lives in a cell: what is read is what was stored once
+			}
+			xd := ds.D(idxArg)
 			seen = xd.String()
 			if xd.MentionsValue(filterCall.Value()) {
 				okProv = true
